@@ -1408,7 +1408,8 @@ class PythonGenericType(DataType):
                 ),
             )
 
-        return coerced_data
+        # mapping an empty or all-null container keeps its original dtype
+        return coerced_data.astype(self._pandas_type)
 
     def __str__(self) -> str:
         return str(self.generic_type or self.type)
